@@ -153,7 +153,16 @@ macro_rules! uniform_int_impl {
                 // first iteration; generator outputs that would be rejected are excluded by assumption
                 // (a rejected draw is simply followed by a fresh one in the real code).
                 #[cfg(kani)]
-                let hi = {
+                let hi = if range == <$sample_ty>::MAX {
+                    // range = 2^w - 1 (e.g. Uniform::new(0u64, usize::MAX as u64)): the wide product is
+                    //   x * (2^w - 1) = x * 2^w - x   =>   hi = x - 1, lo = 2^w - x   for x != 0,
+                    // and thresh = 1, so exactly x = 0 is rejected.  The identity is discharged as an SMT lemma
+                    // (lib/pmhv.py: lemma_wmul_allones, cvc5 + z3) on every run that relies on it; using it
+                    // here avoids bit-blasting a 128-bit multiplier for every draw.
+                    let x = rng.random::<$sample_ty>();
+                    kani::assume(x != 0);
+                    x - 1
+                } else {
                     let (hi, lo) = rng.random::<$sample_ty>().wmul(range);
                     kani::assume(lo >= thresh);
                     hi
